@@ -3,6 +3,7 @@ package main
 import (
 	"bytes"
 	"fmt"
+	"reflect"
 	"regexp"
 	"strings"
 
@@ -38,6 +39,8 @@ type copyCase struct {
 	ops       []op
 	// structural exemptions: regexp on leaf paths that may legitimately differ (documented)
 	exempt *regexp.Regexp
+	// sameObjectOK: the type is read-only and documents that its "copy" is the object itself
+	sameObjectOK bool
 }
 
 // PRNG state is expected to differ between an object and its copy (fresh randomness).
@@ -104,6 +107,10 @@ func seqScenario(cc copyCase, cfg string, withP bool) engine.Scenario {
 		ob := cc.build(e, cfg)
 		s0 := take("x", ob)
 		cp := cc.copy(e, ob)
+		if sameObject(cp, ob) && !cc.sameObjectOK {
+			c.Fail(sig+"copy-is-the-receiver-itself", "the copy constructor returned the receiver itself, not a copy")
+			return
+		}
 		s1 := take("x", ob)
 		if d := s0.Diff(s1); len(d) > 0 {
 			c.Fail(sig+"copying-mutates-original", "taking the copy changed the original at %s", d[0])
@@ -196,6 +203,12 @@ func seqScenario(cc copyCase, cfg string, withP bool) engine.Scenario {
 		}
 		c.Outcome(name, o.name, rA)
 	}}
+}
+
+// sameObject: both are pointers to the same object.
+func sameObject(a, b interface{}) bool {
+	va, vb := reflect.ValueOf(a), reflect.ValueOf(b)
+	return va.Kind() == reflect.Ptr && vb.Kind() == reflect.Ptr && va.Pointer() == vb.Pointer()
 }
 
 func first(s []string, n int) []string {
